@@ -20,6 +20,7 @@ Round 5 (hunt): the bound enters the generated statement parenthesised (repair
 6d76e35); variable tokens and function renames are whole-name substitutions
 (repairs 1626679, 94374e7); every name the line processor rewrites a call into
 is bound in the generated code's namespace (repair c051ced).
+Round 6: vectorize hands the caller's own rows to the compiled constraint.
 NOT decided: behaviour of the exec-generated functions on vectors.
 """
 import ast
@@ -537,3 +538,37 @@ def rewritten_names_are_bound(ctx, parser_anchor, generator_anchor, label):
 def solver_text_only_names_bound_functions(ctx):
     """constraints_parser renames ptp( / average( / var( / prod( into mystic's spread( / mean( / variance( / product(; generate_solvers executes the result: each of those names is bound by its import preamble"""
     rewritten_names_are_bound(ctx, SY + ':constraints_parser._process_line', SY + ':generate_solvers', 'constraints_parser')
+
+
+@rule('C13.l', min_instances=1)
+def vectorize_hands_the_callers_rows_to_the_constraint(ctx):
+    """vectorize(constraint) applies a compiled (in-place) constraint to every row / column of a table: the rows it iterates over are the caller's own (x, or x.T of an array the caller made) - never rows of an array built here with asarray/array, which gives a table of python ints an integer dtype so that the constraint's float result is truncated on assignment (x0 = x1/2 on [2,3,-9] gave [1,3,-9])"""
+    f = ctx.func('mystic.constraints:vectorize')
+    n = 0
+    for d in [x for x in ast.walk(f.node) if isinstance(x, ast.FunctionDef) and x is not f.node]:
+        params = set(a.arg for a in d.args.args)
+        rebound = {}
+        for st in ast.walk(d):
+            if isinstance(st, ast.Assign):
+                for t_ in st.targets:
+                    if isinstance(t_, ast.Name):
+                        rebound.setdefault(t_.id, []).append(st)
+        for comp in [x for x in ast.walk(d) if isinstance(x, (ast.ListComp, ast.GeneratorExp))]:
+            if not any(isinstance(c, ast.Call) and isinstance(c.func, ast.Name) and c.func.id == 'constraint' for c in ast.walk(comp.elt)):
+                continue
+            n += 1
+            it = comp.generators[0].iter
+            root = it
+            while isinstance(root, (ast.Attribute, ast.Subscript)):
+                root = root.value
+            # the comprehension may sit inside a lambda whose own parameter stands for the outer x
+            lam = parent(comp)
+            while lam is not None and not isinstance(lam, (ast.Lambda, ast.FunctionDef)):
+                lam = parent(lam)
+            lam_params = set(a.arg for a in lam.args.args) if isinstance(lam, ast.Lambda) else set()
+            made_here = [st for st in rebound.get(getattr(root, 'id', None), []) if any(isinstance(c, ast.Call) and callee_text(c).split('.')[-1] in ('asarray', 'array', 'asanyarray', 'atleast_2d') for c in ast.walk(st.value))]
+            ok_ = isinstance(root, ast.Name) and (root.id in params or root.id in lam_params) and not made_here
+            ctx.check(ok_, 'vectorize.%s#rows@%d' % (d.name, comp.lineno), 'the constraint receives the caller\'s own rows (%s)' % unparse(it),
+                      'vectorize iterates over %s, rows of an array it built itself (%s): a table of python ints becomes an integer array and the in-place constraint\'s float results are truncated'
+                      % (unparse(it), norm_stmt(made_here[0])[:60] if made_here else 'not the argument'), f, comp)
+    ctx.need(n >= 1, 'vectorize: the application of the constraint to the rows is not found')
